@@ -316,6 +316,13 @@ def check_normalized_cut(rep, repo):
                 acc.append(dataclasses.replace(e, target=("idx", base[3], e.target[2]), guards=e.guards + ((base[1], False),)))
             elif base[0] == "alloc":
                 acc.append(e)
+    if not acc:
+        other = [e for e in w.events if e.kind == "store" and e.aug == "+" and e.target[0] == "idx" and len(e.loops) == 2]
+        if other:
+            # the sums are kept somewhere else than in arrays allocated by this call (views of a buffer kept on the
+            # object, ...): whether they start from zero is a question about that storage, outside these rules
+            raise AnalysisError(f"UnsupervisedOPF._normalized_cut: the per-cluster sums are accumulated in "
+                                f"'{show(other[0].target[1])[:80]}', not in arrays created by the call")
     ok_shape = len(acc) == 2 and acc[0].target[1] != acc[1].target[1] and all(len(e.loops) == 2 for e in acc)
     rep.fn("CUT-accumulators", fn, "two per-cluster accumulators are filled in the arc loop", ok_shape,
            f"found {len(acc)} accumulation site(s) into local arrays")
